@@ -199,6 +199,12 @@ Theorem lookup_of_missing_module_is_none : forall ms path,
 Proof. exact lookup_missing_module. Qed.
 Print Assumptions lookup_of_missing_module_is_none.
 
+(* a new responsibility of fixup.py cannot go unnoticed: every attribute it assigns or rebuilds (extracted from the
+   source) is in the coverage list of the structural walk *)
+Theorem fixup_assigns_covered : str_subset fixup_assigns walk_coverage = true.
+Proof. exact fixup_covered. Qed.
+Print Assumptions fixup_assigns_covered.
+
 (* ---- determinism: every serialized attribute declared as a set goes through sorted(...) in both formats *)
 Theorem set_fields_written_sorted :
   forallb (fun e : string * string * (bool * bool) => fst (snd e) && snd (snd e)) set_fields = true.
